@@ -191,14 +191,16 @@ func main() {
 	to := fs.Int("to", 1<<30, "")
 	seed := fs.Int64("seed", 1, "")
 	runs := fs.Int("runs", 10, "")
+	feat := fs.String("features", "", "")
+	cfgs := fs.String("cfgs", "default", "")
 	hb := fs.Bool("heartbeat", false, "")
 	maxBad := fs.Int("maxbad", 60, "stop after this many cases that crashed, leaked or left the model's path")
 	fs.Parse(os.Args[2:])
-	_ = seed
-	_ = runs
 	switch os.Args[1] {
 	case "teardown":
 		runChildren("teardown-child", *cases, *outp, *workers, nil, *maxBad)
+	case "deliver":
+		cmdDeliver(*seed, *runs, *outp, *feat, *cfgs)
 	case "frames":
 		cmdFrames(*outp, *hb)
 	case "teardown-child":
